@@ -73,6 +73,9 @@ def gen(rng, seed, stall_secs):
     if required:
         p.require_sync_consumers()
     for n in p.nodes:
+        if n['role'] != 'source' and rng.random() < 0.15:
+            n['config']['sources_low_latency'] = True
+    for n in p.nodes:
         if n['id'] != 'eq':
             n['start_ms'] = rng.choice([0, 0, rng.randint(0, 200)])
     link = {'max_delay_ms': rng.choice([0, 10, 50, 95]), 'conn_ms': [0, 30], 'sub_ms': [0, 20]}
